@@ -464,6 +464,11 @@ def snapshot_provenance(run, model, rule):
         for n in flow.cfg.nodes:
             if n.kind == "return" and n.ast is not None and not (isinstance(n.ast, ast.Name) and n.ast.id in built):
                 bad = bad or "`%s` hands back something other than the list built by the walk over inherited + own snapshots: the identity and name checks are skipped on that path (the same snapshot reached along two paths stays twice in the list)" % first_line(n.stmt)
+        # the walk visits every snapshot: nothing leaves the loop early (a `break` drops the snapshots that follow)
+        nested = set(id(sub) for st in it_ok[0].stmt.body for lp in ast.walk(st) if isinstance(lp, (ast.For, ast.While)) for b_ in lp.body + lp.orelse for sub in ast.walk(b_))
+        for n in flow.cfg.nodes:
+            if n.kind == "break" and id(n.stmt) in loop_ids and id(n.stmt) not in nested:
+                bad = bad or "`break` leaves the walk over inherited + own snapshots early: every snapshot after that point is dropped (its OLD value is never captured, the postcondition reading it fails with AttributeError)"
         # identity de-duplication (diamond): skipping is allowed only for the *same object*
         for n in flow.cfg.nodes:
             if n.kind == "continue":
@@ -583,6 +588,22 @@ def _shared_member_guard_shape(model, nf, guards):
             return g.stmt, "the re-use test looks the member up in the direct base's own `__dict__` (`%s`): a member the base itself inherited is not recognised, so the merge runs on the shared checker and duplicates the contracts of the class that defined it" % src_of(own_dict[0], 50)
         if not mro:
             return g.stmt, "the re-use test does not look the member up on the bases (no getattr(base, %s))" % nf.key_p
+        # one base sharing the object is enough (the other bases of a multiple inheritance need not have the member)
+        for e in exprs:
+            for sub in ast.walk(e):
+                if isinstance(sub, ast.Call) and isinstance(sub.func, ast.Name) and sub.func.id == "all" and len(sub.args) == 1 and isinstance(sub.args[0], (ast.GeneratorExp, ast.ListComp)):
+                    positive = [c_ for c_ in ast.walk(sub.args[0].elt) if isinstance(c_, ast.Compare) and len(c_.ops) == 1 and isinstance(c_.ops[0], (ast.Is, ast.In)) and not (isinstance(c_.comparators[0], ast.Constant) and c_.comparators[0].value is None)]
+                    negated = any(isinstance(p_, ast.UnaryOp) and isinstance(p_.op, ast.Not) and any(x is sub for x in ast.walk(p_)) for p_ in ast.walk(g.ast))
+                    if positive and not negated:
+                        return g.stmt, "the re-use test demands that *every* base has the very same object (`all(...)`): with a second base that lacks the member (a mixin) the re-used member is not recognised, the merge runs on the checker shared with the base and duplicates the contracts of the base class"
+        # every accessor of the base's property can be the re-used one (``@Base.prop.getter`` keeps fset and fdel)
+        for e in exprs:
+            for sub in ast.walk(e):
+                if isinstance(sub, ast.Compare) and len(sub.ops) == 1 and isinstance(sub.ops[0], (ast.In, ast.NotIn)) and isinstance(sub.comparators[0], (ast.Tuple, ast.List, ast.Set)):
+                    attrs = [x.attr for x in sub.comparators[0].elts if isinstance(x, ast.Attribute)]
+                    if attrs and set(attrs) <= {"fget", "fset", "fdel"} and set(attrs) != {"fget", "fset", "fdel"}:
+                        missing = sorted({"fget", "fset", "fdel"} - set(attrs))
+                        return g.stmt, "the re-use test does not look at %s of the base's property: a property that re-uses that accessor (`@Base.prop.getter` keeps it) is merged once more on the checker shared with the base, duplicating the base's contracts" % ", ".join(missing)
         for sub in ast.walk(g.ast):
             if isinstance(sub, ast.Compare) and len(sub.ops) == 1 and isinstance(sub.ops[0], (ast.Is, ast.IsNot, ast.In, ast.NotIn)):
                 sides = [sub.left, sub.comparators[0]]
